@@ -211,6 +211,8 @@ pub enum Pop {
     Value(Val),
     NotFound,
     OtherErr,
+    /// fails with the raw OS error ESTALE (an error the callback propagated from its own I/O): an error like any other
+    StaleErr,
     /// writes the first chunk of the value, then fails with NotFound
     PartialNotFound(Val),
     /// writes the first chunk of the value, then fails with another error
@@ -276,6 +278,7 @@ fn pop_label(p: &Pop) -> String {
         Pop::Value(v) => v.label(),
         Pop::NotFound => "NotFound".into(),
         Pop::OtherErr => "Err".into(),
+        Pop::StaleErr => "ESTALE".into(),
         Pop::PartialNotFound(v) => format!("{}-cut-NotFound", v.label()),
         Pop::PartialErr(v) => format!("{}-cut-Err", v.label()),
     }
@@ -554,6 +557,7 @@ fn populate(dst: &mut File, pop: Pop) -> std::io::Result<()> {
         Pop::Value(v) => write_val(dst, v),
         Pop::NotFound => Err(std::io::Error::new(ErrorKind::NotFound, "populate: not found")),
         Pop::OtherErr => Err(std::io::Error::new(ErrorKind::Other, "populate: failed")),
+        Pop::StaleErr => Err(std::io::Error::from_raw_os_error(libc::ESTALE)),
         Pop::PartialNotFound(v) | Pop::PartialErr(v) => {
             if let Some(c) = v.chunks().first() {
                 dst.write_all(c)?;
